@@ -9,7 +9,7 @@ use warp_core::causal_wal::{
     AffectedFrontierKind, BraidShellRetentionRecord, EvidenceMaterialPosture, FilesystemWalStore,
     Lsn, PayloadCodecId, PayloadSchemaId, ReadingRefRecord, RetainedMaterialKind,
     RetainedMaterialRecord, StrandDropRecord, SubmissionAcceptanceRecord, TickReceiptRecord,
-    TopologyImportOutcomeKind, TopologyIntentRecord, WalAppendAuthority, WalCommittedTransaction,
+    TopologyImportOutcomeKind, TopologyIntentRecord, WalAppendAuthority, WalCommittedTransaction, WalWriterEpoch,
     WalDurabilityMode, WalManifest, WalReceiptCorrelationRecord, WalSegmentId, WalStorePort,
     WalTickDecision, WalTransactionBuilder, WalTransactionId, WalTransactionKind, WriterEpochId,
 };
@@ -278,6 +278,8 @@ pub struct BuiltLog {
     pub kinds: Vec<TxKind>,
     pub variant: u8,
     pub epoch: WriterEpochId,
+    /// Writer-epoch evidence as the projection reader wants it (one entry per fenced epoch).
+    pub writer_epochs: Vec<WalWriterEpoch>,
     /// Committed transactions in order.
     pub txs: Vec<WalCommittedTransaction>,
     /// Final segment bytes.
@@ -336,6 +338,7 @@ pub fn build_log(root: &Path, kinds: &[TxKind], variant: u8, publish_manifest: b
         kinds: kinds.to_vec(),
         variant,
         epoch: epoch.epoch_id,
+        writer_epochs: vec![WalWriterEpoch::from_writer_epoch(&epoch)],
         txs: Vec::new(),
         segment: Vec::new(),
         ends: vec![read(&seg_path)?.len()],
